@@ -100,7 +100,7 @@ fn replay_one(report: &mut Report, v: &Value) {
     if let Some(arr) = v["renderings"].as_array() {
         for r in arr {
             let sp = scratch.file(r["text"].as_str().unwrap_or(""), r["ext"].as_str().unwrap_or("graphql"));
-            jobs.push(Job { schema_path: sp, query: QuerySrc::Text(v["document"].as_str().unwrap_or("").into()), opts: opts.clone() });
+            jobs.push(Job { schema_path: sp, query: QuerySrc::Text(v["document"].as_str().unwrap_or("").into()), opts: opts.clone(), cwd: None });
             labels.push(r["label"].as_str().unwrap_or("").to_string());
         }
     }
@@ -143,7 +143,7 @@ pub fn run(report: &mut Report, replay: Option<&Value>) {
         random_opts.operation_name = None;
         for opts in [Opts::default(), random_opts] {
             for p in &paths {
-                jobs.push(Job { schema_path: p.clone(), query: QuerySrc::Text(b.case.document.clone()), opts: opts.clone() });
+                jobs.push(Job { schema_path: p.clone(), query: QuerySrc::Text(b.case.document.clone()), opts: opts.clone(), cwd: None });
             }
             metas.push((tp.clone(), b.case.document.clone(), opts, rs.iter().map(|r| json!({"label": r.label, "ext": r.ext, "text": r.text})).collect::<Vec<_>>(), one_of_reachable(&b), b.features.has("abstract") && b.features.has("nested_list"), fnv_str(&[&rs[0].text, &b.case.document])));
         }
